@@ -115,6 +115,36 @@ func c12Sig2(i int64, maxLen int) jast.Node {
 	return sigProgram(sig, 2, decodeArgs(ai, n))
 }
 
+// two-parameter signatures with an option in a non-canonical place: first
+// parameter n/s/a with ? or +, second n/s with none, - or ?
+func c12Sig3(i int64) jast.Node {
+	nk := len(c12ArgKinds)
+	per := 1 + int64(nk) + pow(nk, 2) + pow(nk, 3)
+	si := i / per
+	ai := i % per
+	t2 := []string{"n", "s"}[si%2]
+	si /= 2
+	o2 := []string{"", "-", "?"}[si%3]
+	si /= 3
+	o1 := []string{"?", "+"}[si%2]
+	si /= 2
+	t1 := []string{"n", "s", "a"}[si%3]
+	n := 0
+	for l := 0; l <= 3; l++ {
+		if ai < pow(nk, l) {
+			n = l
+			break
+		}
+		ai -= pow(nk, l)
+	}
+	return sigProgram(t1+o1+t2+o2, 2, decodeArgs(ai, n))
+}
+
+func c12Sig3N() int64 {
+	nk := len(c12ArgKinds)
+	return 3 * 2 * 3 * 2 * (1 + int64(nk) + pow(nk, 2) + pow(nk, 3))
+}
+
 func c12Sig2N(maxLen int) int64 {
 	nk := len(c12ArgKinds)
 	var per int64
@@ -491,10 +521,10 @@ func init() {
 	fw.Register(&fw.Prop{
 		ID: "C12", Title: "Lexical scoping, closures, signatures, partial application and chaining",
 		Rule: "cases: (a) exhaustive one-parameter signatures: 14 types (n s b l a o f j x (ns) (nsb) a<n> a<s> a<(ns)>) x 4 options (none - ? +) x every argument list of length 0..2 over 9 value kinds, lambda defined and called under a known context and reporting its bindings; " +
-			"(b) two-parameter signatures (first: type x {none,-}; second: type x {none,?,+}) x argument lists of length 0..2 (quick) / 0..3 (thorough); (c) exhaustive partial applications: arity 1..3 x every non-empty placeholder mask x 0..arity+1 call arguments x 4 callee variants (lambda, built-in, bound variable); " +
+			"(b) two-parameter signatures (first: type x {none,-}; second: type x {none,?,+}) x argument lists of length 0..2 (quick) / 0..3 (thorough); (b2) two-parameter signatures with an option where the port does not honour it (first n/s/a with ? or +, second n/s with none, - or ?) x argument lists of length 0..3; for (a)-(b2) a second, declarative oracle decides whether the arguments fit the signature (some in-order assignment in which a plain parameter takes one argument, ? one or none, - one or the type-correct context item, + one or more): a call that fits must not fail with an argument error; (c) exhaustive partial applications: arity 1..3 x every non-empty placeholder mask x 0..arity+1 call arguments x 4 callee variants (lambda, built-in, bound variable); " +
 			"(d) PRNG-generated nested blocks with assignment, shadowing by inner blocks and by parameters, lambdas of 0..3 parameters (nested, returned, passed to $map/$filter/$reduce/$sort, recursive through their binding with a bounded counter), calls with missing and surplus arguments; " +
 			"(e) chains of length 1..4 over values, calls, bare functions, partials, transforms and non-functions; (f) context-defaulting built-ins nested in each other's arguments under different path contexts. Oracle: reference model (exact; errors by class incl. ArgTypeError position). non-trivial = every case; distinct by program text",
-		Assumptions: []string{"signature options only in canonical positions (- first, ? trailing, + last): other placements are not fixed by the statement", "function variables have unique names so generated programs terminate"},
+		Assumptions: []string{"function variables have unique names so generated programs terminate"},
 		Plan: func(tier string, seed uint64) *fw.Plan {
 			n1 := c12Sig1N()
 			maxLen := 2
@@ -503,12 +533,13 @@ func init() {
 			}
 			n2 := c12Sig2N(maxLen)
 			n3 := c12PartialN()
+			n4 := c12Sig3N()
 			nRand := int64(30000)
 			if tier == "thorough" {
 				nRand = 1200000
 			}
-			return &fw.Plan{N: n1 + n2 + n3 + nRand,
-				Subspaces: []string{fmt.Sprintf("%d one-parameter signature x argument-list cases", n1), fmt.Sprintf("%d two-parameter signature x argument-list (length<=%d) cases", n2, maxLen), fmt.Sprintf("%d partial-application shapes", n3)},
+			return &fw.Plan{N: n1 + n2 + n3 + n4 + nRand,
+				Subspaces: []string{fmt.Sprintf("%d one-parameter signature x argument-list cases", n1), fmt.Sprintf("%d two-parameter signature x argument-list (length<=%d) cases", n2, maxLen), fmt.Sprintf("%d partial-application shapes", n3), fmt.Sprintf("%d two-parameter signatures with an option in a non-canonical position x argument lists of length<=3", n4)},
 				Run: func(i int64, r *fw.Rec) {
 					var tree jast.Node
 					tag := ""
@@ -519,6 +550,8 @@ func init() {
 						tree, tag = c12Sig2(i-n1, maxLen), "sig2"
 					case i < n1+n2+n3:
 						tree, tag = c12Partial(i-n1-n2), "partial"
+					case i < n1+n2+n3+n4:
+						tree, tag = c12Sig3(i-n1-n2-n3), "sig-non-canonical"
 					default:
 						rr := prng.New(seed, 0xC12, uint64(i))
 						g := &c12Gen{r: rr, arity: map[string]int{}, tags: map[string]bool{}}
